@@ -109,7 +109,9 @@ def choose(ctx, name, options):
 
 STRETCH = {
     # params, class invariant (established by __post_init__), identity condition, clips?, declared inverse class
-    "LinearStretch": dict(params=("slope", "intercept"), inv=lambda p: [], ident=lambda p: AND(p["slope"] == 1, p["intercept"] == 0),
+    # LinearStretch is under contract ONLY in the configuration the library constructs (CustomNormalization builds LinearStretch()):
+    # slope/intercept are not among the property's stretch parameters (power, logarithmic index, asinh range), see ASSUMPTIONS
+    "LinearStretch": dict(params=("slope", "intercept"), inv=lambda p: [("slope=1", p["slope"] == 1), ("intercept=0", p["intercept"] == 0)], ident=lambda p: AND(p["slope"] == 1, p["intercept"] == 0),
                           inverse="LinearStretch"),
     "PowerLawStretch": dict(params=("power",), inv=lambda p: [("power>0", p["power"] > 0)], ident=lambda p: p["power"] == 1,
                             inverse="PowerLawStretch"),
@@ -308,10 +310,7 @@ def si_setup(name):
 
 
 def si_requires(s):
-    r = list(stretch_inv(s.self))
-    if s.self.cls.__name__ == "LinearStretch":
-        r.append(("slope!=0", rt_(fld(s.self, "slope")) != 0))
-    return r
+    return list(stretch_inv(s.self))
 
 
 def run_real(interp, fn, args, kwargs=None):
@@ -1065,6 +1064,8 @@ def rt_stretch(inp):
         return dict(violated=False, observed="invalid parameters rejected by __post_init__", expected="-")
     name = inp["cls"]
     linear = name == "LinearStretch"
+    if linear and (params.get("slope", 1.0) != 1.0 or params.get("intercept", 0.0) != 0.0):
+        return dict(violated=False, observed="non-identity LinearStretch: outside the contract (see ASSUMPTIONS)", expected="-")
     ident = (linear and params.get("slope", 1.0) == 1.0 and params.get("intercept", 0.0) == 0.0) or (name == "PowerLawStretch" and params.get("power", 1.0) == 1.0)
     x = _arr(inp.get("xs", [0.0, 0.25, 1.0]))
     x0 = x.copy()
@@ -1123,15 +1124,6 @@ def fam_stretch(tier="quick", seed=0):
                     if c == "HyperbolicSineStretch" and v < 0.01:
                         continue  # sinh(1/a) overflows float64 below a ~ 1/710
                     yield dict(cls=c, params=dict(a=v), xs=xs, copy=copy)
-    for sl, ic in ((2.0, 0.1), (1.0, 0.5), (0.5, 0.0), (3.0, -1.0)):
-        yield dict(cls="LinearStretch", params=dict(slope=sl, intercept=ic), xs=xs, copy=True)
-
-
-def klass_stretch(inp, res):
-    p = inp.get("params", {})
-    if inp["cls"] == "LinearStretch" and (p.get("slope", 1.0) != 1.0 or p.get("intercept", 0.0) != 0.0) and str(res.get("observed", "")).startswith("stretch(inverse(y)) != y"):
-        return "non-identity-LinearStretch-round-trip"
-    return "any"
 
 
 def conc_stretch(name):
@@ -1654,7 +1646,7 @@ LEMMAS = [Lemma("interval-then-stretch=property", lemma_composition, uses=["Base
 
 BOUNDED = [
     Bounded.from_rt("stretch classes: parameter sweep incl. out-of-range / NaN / inf inputs and inverse round trip", rt_stretch, fam_stretch,
-                    "6 classes, 8 (13 thorough) parameter values, 15 inputs, copy True/False; float64", klass=klass_stretch),
+                    "6 classes, 8 (13 thorough) parameter values, 15 inputs, copy True/False; float64"),
     Bounded.from_rt("intervals: dtype sweep", rt_interval, fam_interval, "9 dtypes (float16/32/64, int8..64, uint8/16) x 8 data sets x 12 interval configurations", klass=klass_dtype),
     Bounded.from_rt("CustomNormalization: dtype x preset sweep with NaN/inf entries", rt_norm, fam_norm,
                     "10 dtypes x <=9 data sets x (10 presets + 5 explicit configurations) x data given / not given; 1-d, 2-d, 3-d", klass=klass_norm),
@@ -1689,6 +1681,9 @@ ASSUMPTIONS = [
     "`two distinct finite values` implies vmin < vmax for data min/max and centred limits (lemma), NOT for every quantile pair (e.g. 60 zeros and a single 1 with the default 2%/98% quantiles)",
     "configuration strings are enumerated as {each literal the code compares against, one other string}; integer data in __init__ is covered by the float case (see comment in init_setup)",
     "CustomNormalization.inverse is specified for explicit (frozen) limits only: BaseInterval.inverse asks get_limits about the NORMALISED values",
+    "LinearStretch is under contract only as the identity LinearStretch() (slope=1, intercept=0), the one configuration CustomNormalization builds; slope/intercept are not "
+    "among the property's stretch parameters. A non-identity LinearStretch cannot both map [0,1] into [0,1] and round-trip: __call__ clips its argument to [0,1] before the affine "
+    "map, e.g. LinearStretch(2, 0.1): inverse(0) = -0.05 -> clipped to 0 -> stretch gives 0.1 != 0; LinearStretch(0.5, 0): inverse(1) = 2 -> clipped to 1 -> 0.5 != 1 (noted, not claimed)",
     "0-d inputs, python lists/scalars as `value`, np.bool_ limits: not modelled deductively (0-d is in the bounded checks)",
 ]
 EXPLANATION = ("VCs generated from the real source of all functions of custom_normalizations.py (6 stretch classes' __call__ and inverse, 3 get_limits, BaseInterval.__call__/inverse, "
